@@ -12,14 +12,15 @@ COQ_MODEL = "run_c12"
 COQ_OK = "(ok_spec run_c12)"   # the per-APID automaton determines outputs and warnings uniquely (C12_group_semantics)
 COQ_INPUT_TYPE = "Z * list (list (Z * Z))"
 RULE = ("all histories of length <= 4 (quick) / <= 5 (thorough) over {FIRST,CONT,LAST,UNSEG} x 2 APIDs with sequence-count "
-        "patterns {in-sequence, gap, wrap 16383->0}; random histories to length 40; secondary header 0/1/4 bytes; "
+        "patterns {in-sequence, gap, wrap 16383->0}; random histories to length 40; secondary header 0/1/4 bytes, with segments whose "
+        "data field is exactly or not even the secondary header; "
         "distinct = distinct (flags/APID word, count pattern, sec)")
 ASSUMPTIONS = ["each raw packet's data field carries a unique tag so contributing packets are identified from output bytes"]
 
 FLAGS = {"C": 0, "F": 1, "L": 2, "U": 3}
 
 
-def build(hist, sec, start, pattern, rng_tag=0):
+def build(hist, sec, start, pattern, rng_tag=0, rng=None):
     """hist: list of (flag letter, apid); returns list of packet bytes with per-APID sequence counts."""
     counts = {}
     pk = []
@@ -31,6 +32,13 @@ def build(hist, sec, start, pattern, rng_tag=0):
             step = 2
         counts[apid] = (c + step) % 16384
         data = bytes([0xA0 + (i % 16)] * sec) + bytes([0xEE, i & 0xFF])
+        if rng is not None and sec:
+            # segments that carry nothing but their secondary header, or not even all of it
+            r = rng.random()
+            if r < 0.15:
+                data = data[:sec]
+            elif r < 0.25 and sec >= 2:
+                data = data[:sec - 1]
         hdr = (0 << 45) | (0 << 44) | ((1 if sec else 0) << 43) | (apid << 32) | (FLAGS[fl] << 30) | (c << 16) | (len(data) - 1)
         pk.append(hdr.to_bytes(6, "big") + data)
     return pk
@@ -49,7 +57,7 @@ def gen(rng, tier):
             pattern = rng.choice(["seq", "seq", "gap"])
             start = rng.choice([0, 7, 16382, 16383])
             sec = rng.choice([0, 1, 4])
-            cases.append({"sec": sec, "packets": [p.hex() for p in build(hist, sec, start, pattern)],
+            cases.append({"sec": sec, "packets": [p.hex() for p in build(hist, sec, start, pattern, rng=rng if n >= 2 else None)],
                           "hist": "".join(f"{f}{a}" for f, a in hist), "pattern": pattern, "start": start})
     nrand = 60 if tier == "quick" else 2000
     for _ in range(nrand):
@@ -59,7 +67,7 @@ def gen(rng, tier):
         for _i in range(n):
             hist.append((rng.choice("FCCLLU"), rng.choice(apids)))
         sec = rng.choice([0, 1, 4])
-        pk = build(hist, sec, rng.choice([0, 16380]), "seq")
+        pk = build(hist, sec, rng.choice([0, 16380]), "seq", rng=rng)
         # random extra gaps: perturb some sequence counts
         for j in range(len(pk)):
             if rng.random() < 0.1:
